@@ -85,15 +85,16 @@ def run(vc):
 
     def h_i2l(p):
         imp = pm.table("impedance", {"from_bus": I, "to_bus": I, "rft_pu": R, "xft_pu": R, "rtf_pu": R, "xtf_pu": R, "sn_mva": R, "in_service": B,
-                                     "name": PV})
+                                     "name": PV, "gf_pu": R, "bf_pu": R, "gt_pu": R, "bt_pu": R})
         bus = pm.table("bus", {"vn_kv": R})
-        net = netmodel.Net({"impedance": imp, "bus": bus}, strict=True)
+        net = netmodel.Net({"impedance": imp, "bus": bus, "f_hz": real("f_hz")}, strict=True)
         created = []
         _stubs(p, created, "create_line_from_parameters")
         me = p.it.modenv(GM)
         me.vals["ensure_iterability"] = Native(lambda it, x, n=None: Arr(imp.space, x) if n is not None else x, name="ensure_iterability")
         c = imp.cols
-        p.assume(z3.And(imp.space.n > 0, to_z(c["sn_mva"]) > 0, to_z(c["rft_pu"]) == to_z(c["rtf_pu"]), to_z(c["xft_pu"]) == to_z(c["xtf_pu"])))
+        p.assume(z3.And(imp.space.n > 0, to_z(c["sn_mva"]) > 0, to_z(c["rft_pu"]) == to_z(c["rtf_pu"]), to_z(c["xft_pu"]) == to_z(c["xtf_pu"]),
+                        to_z(c["gf_pu"]) == to_z(c["gt_pu"]), to_z(c["bf_pu"]) == to_z(c["bt_pu"]), to_z(net.fields.raw("f_hz")) > 0))
         p.it.summaries["numpy:isclose"] = None
         out = p.call(f"{GM}:replace_impedance_by_line", net, None, False, real("max_i_ka"))
         if out.raised:
@@ -104,10 +105,17 @@ def run(vc):
         a, k = created[0]
         vn = bus.by_label(p.it, "vn_kv", to_z(c["from_bus"], I))
         zn = to_z(vn) * to_z(vn) / to_z(c["sn_mva"])
+        p.assume(to_z(vn) > 0)          # rated bus voltages are positive
         length = to_z(k["length_km"], R)
         p.prove("impedance->line:r", to_z(k["r_ohm_per_km"], R) * length == to_z(c["rft_pu"]) * zn, meta=dict(part="i2l"))
         p.prove("impedance->line:x", to_z(k["x_ohm_per_km"], R) * length == to_z(c["xft_pu"]) * zn, meta=dict(part="i2l"))
-        p.prove("impedance->line:no-capacitance", to_z(k["c_nf_per_km"], R) == 0, meta=dict(part="i2l"))
+        # the pi circuit of the line has half of its shunt admittance at each end: per end the impedance's own gf + j bf (per unit of Z_N)
+        from pyvc.values import pi as _pi
+        w = 2 * to_z(_pi(), R) * to_z(net.fields.raw("f_hz"), R)
+        p.prove("impedance->line:shunt-susceptance-per-end", w * to_z(k["c_nf_per_km"], R) * length / 1e9 * zn / 2 == to_z(c["bf_pu"]), meta=dict(part="i2l"),
+                note="omega * C * length * Z_N / 2 == bf_pu (the expectation used to be 'no capacitance', copied from the code)")
+        g_us = k.get("g_us_per_km", 0.0)
+        p.prove("impedance->line:shunt-conductance-per-end", to_z(g_us, R) * length / 1e6 * zn / 2 == to_z(c["gf_pu"]), meta=dict(part="i2l"))
         p.prove("impedance->line:parallel", to_z(k["parallel"], R) == 1, meta=dict(part="i2l"))
         p.prove("impedance->line:buses", z3.And(to_z(a[0], I) == to_z(c["from_bus"], I), to_z(a[1], I) == to_z(c["to_bus"], I)), meta=dict(part="i2l"))
         p.prove("impedance->line:in_service", to_z(k["in_service"]) == to_z(c["in_service"]), meta=dict(part="i2l"))
@@ -188,6 +196,13 @@ def run(vc):
     vc.explore("select_subnet", h_sub, max_paths=200)
 
     run_drop_oos(vc)
+    if not hasattr(vc, "native_standins"):
+        vc.native_standins = []
+    vc.native_standins.append(dict(
+        name="further electrically neutral transformations on fixed networks",
+        bound="an impedance with symmetric shunt admittances replaced by a line; select_subnet of all buses and drop_inactive_elements on a "
+              "network with a three-winding transformer whose lv side is behind an open t3 switch: bus voltages and slack power before / after",
+        script="from replaylib.transformations import main_more\nmain_more()\n"))
 
     if not hasattr(vc, "native_standins"):
         vc.native_standins = []
